@@ -2239,11 +2239,14 @@ def snippets(rng, n):
 
 
 def classify(i, T):
-    """known-finding classes: the id is one of knownUnlisted of Props/C28.lean; the class says why --errorlist misses it"""
+    """known-finding classes: the id is one of knownUnlisted of Props/C28.lean AND has a witness in the corpus; the class is the
+    emitting class recorded with the witness (one known-finding key per class)"""
     if i not in T["lists"]["knownUnlisted"]:
         return None
-    reached = any(r[5] == i and (T["reached"] >> r[1]) & 1 for r in T["rows"])
-    return "unlisted-id:emitter-reached-from-getErrorMessages-but-not-printed" if reached else "unlisted-id:emitter-not-called-from-getErrorMessages"
+    for w in load_witnesses():
+        if w["id"] == i and not w.get("fixed"):
+            return "unlisted-id:" + w["cls"]
+    return None
 
 
 def run(ctx, res):
